@@ -7,15 +7,17 @@ one location holding the C01 model state; `Insert`/`Delete` are W-mode operation
 model step and write it back; `GetNodeValueRaw`/`Iterate`/`GetRoot`/`SaveChanges` are R-mode operations that read it
 (`Verif.C16Map.opProg`; `GetRoot` returns C02's `root H` of the trie it reads, `SaveChanges` returns without changing it). These programs perform only accesses of the regenerated table `mptScope` in the lock mode the
 table records for the real methods (checked below by `decide` over the table). `SetVersion` (`Op.ver`) is outside
-the claimed scope. The change-set reads (`GetChanges`/`GetDeletes`/`GetChangeCount`) and the merges have no sequential
-specification here: their linearizability is checked by the Go suite only (checks/C16.json).
+the claimed scope. The location also holds the change collector (store agent's `Verif.MptStore.Collector`, fed with the
+`insertNode`/`deleteNode` events of `insertE`/`deleteE`): `GetChanges`/`GetDeletes`/`GetChangeCount` are R-mode reads
+returning its content, `MergeChanges` is a W-mode operation that replaces the tree by the child's and replays the
+change set. `MergeDB` (store-level) and `MergeMPTChanges` (excluded) have no sequential specification here.
 -/
 import Verif.Props.C16
 import Verif.Lemmas.C16Map
 
 namespace Verif.Props.C16
 open Verif.RW Verif.Mpt Verif.Gen.LockFacts Verif.LockTable Verif.C16Map
-open Verif.Props.C01 (MState Obs emptySpec)
+open Verif.Props.C01 (emptySpec)
 
 /-- the three accesses the instantiated operations perform are accesses of the regenerated table, in the lock
 mode recorded there: `root` written and read under the write lock (`Insert`/`Delete`), read under the read lock -/
@@ -30,38 +32,51 @@ reads `root`, `SaveChanges` does not touch `root` at all (it reads the change co
 theorem model_modes_match_table :
     mpt_Insert.lock = .write ∧ mpt_Delete.lock = .write ∧ mpt_GetNodeValueRaw.lock = .read ∧ mpt_Iterate.lock = .read ∧
     mpt_GetRoot.lock = .read ∧ mpt_SaveChanges.lock = .read ∧
+    mpt_GetChanges.lock = .read ∧ mpt_GetDeletes.lock = .read ∧ mpt_GetChangeCount.lock = .read ∧
+    mpt_MergeChanges.lock = .write ∧
+    modeOfOp .changes = .R ∧ modeOfOp .deletes = .R ∧ modeOfOp .count = .R ∧
+    (∀ ch ces sr, modeOfOp (.merge ch ces sr) = .W) ∧
     mpt_GetRoot.accesses.map (fun a => (a.fid, a.kind, a.mode)) = [(rootF, .read, .read)] ∧
     (mpt_SaveChanges.accesses.all fun a => a.fid != rootF && !plainWriteKind a.kind) = true ∧
     modeOfOp .root = .R ∧ modeOfOp .save = .R ∧ (∀ p b, modeOfOp (.base (.ins p b)) = .W) ∧
     (∀ p, modeOfOp (.base (.del p)) = .W) ∧ (∀ p, modeOfOp (.base (.get p)) = .R) ∧ modeOfOp (.base .iter) = .R := by
   refine ⟨by decide +kernel, by decide +kernel, by decide +kernel, by decide +kernel, by decide +kernel,
-    by decide +kernel, by decide +kernel, by decide +kernel, rfl, rfl, fun _ _ => rfl, fun _ => rfl, fun _ => rfl, rfl⟩
+    by decide +kernel, by decide +kernel, by decide +kernel, by decide +kernel, by decide +kernel, rfl, rfl, rfl,
+    fun _ _ _ => rfl, by decide +kernel, by decide +kernel, rfl, rfl, fun _ _ => rfl, fun _ => rfl, fun _ => rfl, rfl⟩
 
 /-- **C16 for the trie model.** Any number of threads run arbitrary scripts of `ins` / `del` / `get` / `iter` /
-`GetRoot` / `SaveChanges` operations on one shared trie, started empty at version `v0`, under ANY schedule admitted by
-the RW lock. For every reachable configuration there is a list `lops` of the operations that have acquired the lock so
-far — each taken from some thread's script, in lock-acquisition order (`c.lin`), an operation entering it between its
-call and its return — such that
+`GetRoot` / `SaveChanges` / `GetChanges` / `GetDeletes` / `GetChangeCount` / `MergeChanges` operations on one shared
+trie, started empty at version `v0`, under ANY schedule admitted by the RW lock. For every reachable configuration
+there is a list `lops` of the operations that have acquired the lock so far — each taken from some thread's script,
+in lock-acquisition order (`c.lin`), an operation entering it between its call and its return — such that
 1. the results are those of the SEQUENTIAL model run of `lops` (`trun`), and every thread's returned results are its
    own entries of that list in order (the entry of an operation still running being the last);
-2. hence they agree one by one with the partial-map specification run on `lops` (`TRel`): a C01 operation returns what
-   the map returns; **`GetRoot` returns the canonical root of the map content at its linearization point** — the
-   `root H` (C02) of every canonical trie that reads as that map; `SaveChanges` leaves the map as it is;
+2. hence they agree one by one with the specification run on `lops` (`TRel`/`ObsOk`): a C01 operation returns what
+   the partial map returns; **`GetRoot` returns the canonical root of the map content at its linearization point** —
+   the `root H` (C02) of every canonical trie that reads as that map; `SaveChanges` leaves map and collector as they
+   are; **`GetChanges` / `GetDeletes` / `GetChangeCount` return the content of `collect (events of the linearized
+   prefix)`** — the store agent's collector (`Verif.MptStore.Collector`, the object of `C04.collector_algebra`) run
+   from the empty collector over the `insertNode`/`deleteNode` events (`insertE`/`deleteE`, and the replayed change
+   sets of merges) of the operations linearized before it (nothing resets the collector: `SaveChanges` clones it);
+   **`MergeChanges`**, unless stale or a no-op, makes the map the content of the child's tree;
 3. whenever no writer is inside its critical section — in particular at the end — the shared trie reads as the map
-   the specification ends with (final content = sequential execution of the completed updates) and
-   **its root is the root of every canonical trie of that map** (root equality with the sequential execution);
-4. no configuration has a race. -/
-theorem C16_map (H : Bytes → Bytes) (maxSize v0 : Nat) (ops : Tid → List TOp) (hnv : ∀ t op, op ∈ ops t → NoVer op)
-    (c : Config MState TObs)
-    (hr : Reachable (fun t => (ops t).map (opProg rootF H maxSize)) (fun _ => Verif.Props.C01.init v0) c) :
+   the specification ends with (final content = sequential execution of the completed updates),
+   **its root is the root of every canonical trie of that map**, and its collector is `collect` of all events;
+4. no configuration has a race.
+Merged trees are assumed canonical and of the trie's version (`MergeWF`: child tries of the same block). -/
+theorem C16_map (H : Bytes → Bytes) (maxSize v0 : Nat) (ops : Tid → List TOp)
+    (hnv : ∀ t op, op ∈ ops t → NoVer op ∧ MergeWF v0 op)
+    (c : Config XState TObs)
+    (hr : Reachable (fun t => (ops t).map (opProg rootF H maxSize)) (fun _ => xinit v0) c) :
     ∃ lops : List TOp, (∀ op, op ∈ lops → ∃ t, op ∈ ops t) ∧
-      c.lin.map (·.pred) = (trun H maxSize (Verif.Props.C01.init v0) lops).2 ∧
+      c.lin.map (·.pred) = (trun H maxSize (xinit v0) lops).2 ∧
       (∀ t, (c.lin.filter (fun e => e.tid == t)).map (·.pred) = (c.thr t).done ++ (c.thr t).pred.toList) ∧
-      TRel H v0 maxSize emptySpec lops (c.lin.map (·.pred)) ∧
+      TRel H v0 maxSize emptySpec (xinit v0) [] lops (c.lin.map (·.pred)) ∧
       ((∀ t, (c.thr t).main ≠ some .W) →
-        (∀ q, lookup (c.mem rootF).t q = tsfinal maxSize emptySpec lops q) ∧
-        (∀ t', WF t' → AllOrigin v0 t' → (∀ q, lookup t' q = tsfinal maxSize emptySpec lops q) →
-          root H (c.mem rootF).t = root H t')) ∧
+        (∀ q, lookup (c.mem rootF).ms.t q = tspec H maxSize emptySpec (xinit v0) lops q) ∧
+        (∀ t', WF t' → AllOrigin v0 t' → (∀ q, lookup t' q = tspec H maxSize emptySpec (xinit v0) lops q) →
+          root H (c.mem rootF).ms.t = root H t') ∧
+        (c.mem rootF).cc = collect H (tevs H maxSize (xinit v0) lops)) ∧
       ¬ Race c := by
   obtain ⟨hRW, hWW, hRR⟩ := trie_accesses_in_table
   have hmem : ∀ t p, p ∈ (ops t).map (opProg rootF H maxSize) → ∃ op, op ∈ ops t ∧ p = opProg rootF H maxSize op := by
@@ -73,7 +88,7 @@ theorem C16_map (H : Bytes → Bytes) (maxSize v0 : Nat) (ops : Tid → List TOp
   have hconf : ∀ t p, p ∈ (ops t).map (opProg rootF H maxSize) → Conf (footprint mptScope) none p := by
     intro t p hp
     obtain ⟨op, _, rfl⟩ := hmem t p hp
-    rcases op with (_ | _ | _ | _ | _) | _ | _ <;> simp [opProg, modeOfOp, body, isUpdate, Conf, hRW, hWW, hRR]
+    rcases op with (_ | _ | _ | _ | _) | _ | _ | _ | _ | _ | _ <;> simp [opProg, modeOfOp, body, isUpdate, Conf, hRW, hWW, hRR]
   have hshape : ∀ t p, p ∈ (ops t).map (opProg rootF H maxSize) → ∃ m k, p = .acq m k ∧ BodyOK k := by
     intro t p hp
     obtain ⟨op, _, rfl⟩ := hmem t p hp
@@ -81,24 +96,25 @@ theorem C16_map (H : Bytes → Bytes) (maxSize v0 : Nat) (ops : Tid → List TOp
   have hobl : ∀ t p, p ∈ (ops t).map (opProg rootF H maxSize) → Oblivious (bkOf (footprint mptScope)) p := by
     intro t p hp
     obtain ⟨op, _, rfl⟩ := hmem t p hp
-    rcases op with (_ | _ | _ | _ | _) | _ | _ <;> simp [opProg, body, isUpdate, Oblivious] <;>
+    rcases op with (_ | _ | _ | _ | _) | _ | _ | _ | _ | _ | _ <;> simp [opProg, body, isUpdate, Oblivious] <;>
       exact fun hb => absurd hb root_not_bookkeeping
   obtain ⟨hres, hper, hfin, hrace⟩ := lin_of_table mptScope mpt_table_ok _ _ hconf hshape hobl c hr
   -- the log consists of bodies of operations of the scripts
   obtain ⟨s, ex⟩ := hr
-  have oinv := (OpsInv.init (L := rootF) (H := H) (maxSize := maxSize) (P := fun op => NoVer op ∧ ∃ t, op ∈ ops t) ops
-    (fun _ => Verif.Props.C01.init v0) (fun t op hop => ⟨hnv t op hop, t, hop⟩)).exec ex
+  have oinv := (OpsInv.init (L := rootF) (H := H) (maxSize := maxSize)
+    (P := fun op => (NoVer op ∧ MergeWF v0 op) ∧ ∃ t, op ∈ ops t) ops
+    (fun _ => xinit v0) (fun t op hop => ⟨hnv t op hop, t, hop⟩)).exec ex
   obtain ⟨lops, hlops, hprogs⟩ := OpsInv.log_ops c.lin oinv.lin
-  have hseq := seqRun_mrun rootF H maxSize c.lin lops (fun _ => Verif.Props.C01.init v0) hprogs (fun op hop => (hlops op hop).1)
-  have hrel := trun_rel H maxSize v0 lops (tinv_init v0) (fun op hop => (hlops op hop).1)
+  have hseq := seqRun_mrun rootF H maxSize c.lin lops (fun _ => xinit v0) hprogs (fun op hop => (hlops op hop).1.1)
+  have hrel := trun_rel H maxSize v0 lops (es := []) (tinv_init v0) rfl (fun op hop => (hlops op hop).1)
   refine ⟨lops, fun op hop => (hlops op hop).2, ?_, hper, ?_, ?_, hrace⟩
   · rw [← hres, hseq.1]
   · rw [← hres, hseq.1]; exact hrel.1
   · intro hnw
     have hag := hfin hnw rootF root_not_bookkeeping
-    have hst : c.mem rootF = (trun H maxSize (Verif.Props.C01.init v0) lops).1 := by rw [← hag, hseq.2]
-    obtain ⟨hwf, hao, _, hl⟩ := hrel.2
-    refine ⟨fun q => by rw [hst]; exact hl q, fun t' hw' ho' hl' => ?_⟩
+    have hst : c.mem rootF = (trun H maxSize (xinit v0) lops).1 := by rw [← hag, hseq.2]
+    obtain ⟨hwf, hao, _, hl⟩ := hrel.2.1
+    refine ⟨fun q => by rw [hst]; exact hl q, fun t' hw' ho' hl' => ?_, by rw [hst, hrel.2.2]; rfl⟩
     rw [hst]
     exact Verif.Props.C02.C02_root_of_content H v0 _ t' hwf hw' hao ho' (fun q => by rw [hl q, hl' q])
 
